@@ -369,6 +369,9 @@ pub fn run_program(b: &Value, id: u64) -> RunOut {
                 c2.sync();
                 c2.sync();
             }));
+            // give the handle back before reporting: the controller's handle must be the last one
+            // when it drops the cache (the live-object counters are per run)
+            drop(c2);
             let _ = tx.send(r.is_ok());
         });
         let fin: Result<(), ()> = match rx.recv_timeout(Duration::from_secs(30)) {
